@@ -138,6 +138,11 @@ pub fn check_openings(cx: &mut Cx, frame: &str, v: &Value, secrets: &[Secret], p
 
 /// C19 on one frame: responses divided by recomputable challenges / other responses
 pub fn check_masking(cx: &mut Cx, frame: &str, v: &Value, secrets: &[Secret], extra_challenges: &[(String, Integer)]) {
+    let mut h = History::default();
+    check_masking_h(cx, frame, "this frame", v, secrets, extra_challenges, &mut h)
+}
+
+pub fn check_masking_h(cx: &mut Cx, frame: &str, origin: &str, v: &Value, secrets: &[Secret], extra_challenges: &[(String, Integer)], hist: &mut History) {
     let ls = leaves(v);
     let bound = Integer::from(1) << 64u32;
     // candidate challenges: every leaf named challenge / C (and C mod 2^128), plus recomputed ones
@@ -168,6 +173,13 @@ pub fn check_masking(cx: &mut Cx, frame: &str, v: &Value, secrets: &[Secret], ex
                     let blinder = Integer::from(*s - Integer::from(c * &x.value));
                     if blinder == 0 { cx.violation("C19", format!("{frame}/{rp}/blinder-is-zero/{cp}/{}", x.kind), format!("{rp} = {cp} * {} exactly: no blinding term at all", x.kind)); }
                     if blinder == x.value { cx.violation("C19", format!("{frame}/{rp}/blinder-is-the-secret/{cp}/{}", x.kind), format!("{rp} = (1 + {cp}) * {}: the blinding term is the secret itself", x.kind)); }
+                    // ... and never used twice (in this frame under another challenge, or in another
+                    // frame of the run): two responses with one blinder give (s - s') / (c - c') = x
+                    if blinder > 0 && !x.kind.starts_with("opening-randomness-of:") {
+                        let here = format!("{origin}:{rp}");
+                        if let Some(prev) = hist.blinders.get(&blinder.to_string_radix(16)) { if *prev != here { cx.violation("C19", format!("{frame}/{rp}/blinder-reused/{}", x.kind), format!("the blinding term of {here} (for the sender's {}) was already used by {prev}: the difference of the two responses divided by the difference of their challenges is the secret", x.kind)); } }
+                        else { hist.blinders.insert(blinder.to_string_radix(16), here); }
+                    }
                 }
             }
         }
@@ -179,6 +191,78 @@ pub fn check_masking(cx: &mut Cx, frame: &str, v: &Value, secrets: &[Secret], ex
                 cx.count("n.division_tests");
                 if Integer::from(&q - &x.value).abs() < bound {
                     cx.violation("C19", format!("{frame}/{rp}/div/{rp2}/{}", x.kind), format!("floor({rp} / {rp2}) is within 2^64 of the sender's {} (difference {})", x.kind, Integer::from(&q - &x.value)));
+                }
+            }
+        }
+    }
+}
+
+/// what the monitor remembers across the frames of one run
+#[derive(Default)]
+pub struct History {
+    /// recomputed blinding terms (hex) -> where first seen
+    blinders: std::collections::BTreeMap<String, String>,
+    /// (pair of field paths, product or quotient of the two group elements) -> frame first seen in
+    combos: std::collections::BTreeMap<(String, String), String>,
+}
+
+fn is_group_element(path: &str) -> bool {
+    let l = path.rsplit('.').next().unwrap_or("");
+    let l = l.split('[').next().unwrap_or(l);
+    matches!(l, "value" | "t" | "E" | "F" | "E_a_1" | "E_a_2" | "E_b_1" | "E_b_2" | "E_prime")
+}
+/// the sub-proof a leaf belongs to: its path up to the second component (array index kept)
+fn component(path: &str) -> &str {
+    let p = path.strip_prefix("CL03.").unwrap_or(path);
+    let off = path.len() - p.len();
+    let end = p.find('.').unwrap_or(p.len());
+    &path[..off + end]
+}
+
+/// C17 across frames: several honest proofs about the SAME secrets must not share a group element,
+/// nor a product or a quotient of two group elements of one sub-proof -- a combination in which the
+/// blinding cancels is a deterministic function of the hidden value, so that a guess is confirmed
+/// (and two presentations are linked) by recomputing it
+pub fn check_combinations(cx: &mut Cx, frame: &str, origin: &str, v: &Value, n: &Integer, hist: &mut History) {
+    let ls: Vec<(String, Integer)> = leaves(v).into_iter().filter(|(p, x)| is_group_element(p) && *x > 1).collect();
+    cx.add("n.group_elements_combined", ls.len() as u64);
+    let mut see = |cx: &mut Cx, key: String, val: Integer| {
+        if val <= 1 { return; }
+        let k = (key.clone(), val.to_string_radix(16));
+        if let Some(prev) = hist.combos.get(&k) { if prev != origin { cx.violation("C17", format!("{frame}/{key}/repeats-across-proofs"), format!("{key} has the same value in {prev} and in {origin}: it does not depend on the fresh randomness of the proof, so it is a function of the hidden values a guess can be checked against")); } }
+        else { hist.combos.insert(k, origin.to_string()); }
+    };
+    for (i, (pa, xa)) in ls.iter().enumerate() {
+        see(cx, generic_path(pa), xa.clone());
+        for (pb, xb) in ls.iter().skip(i + 1) {
+            if component(pa) != component(pb) { continue; }
+            cx.count("n.pair_combinations");
+            see(cx, format!("{}*{}", generic_path(pa), generic_path(pb)), Integer::from(xa * xb) % n);
+            if let Ok(inv) = xb.clone().invert(n) { see(cx, format!("{}/{}", generic_path(pa), generic_path(pb)), Integer::from(xa * &inv) % n); }
+        }
+    }
+}
+
+/// C19 within one frame: two responses of DIFFERENT sub-proofs that share their blinding term:
+/// (s - s') / (c - c') is then a secret exactly, whatever the size of the blinder
+pub fn check_shared_first_moves(cx: &mut Cx, frame: &str, v: &Value, secrets: &[Secret], extra_challenges: &[(String, Integer)]) {
+    let ls = leaves(v);
+    let mut chals: Vec<(String, Integer)> = ls.iter().filter(|(p, _)| p.rsplit('.').next() == Some("challenge")).map(|(p, x)| (generic_path(p), x.clone())).collect();
+    chals.extend(extra_challenges.iter().cloned());
+    let resp: Vec<(&String, &Integer)> = ls.iter().filter(|(p, x)| { let l = p.rsplit('.').next().unwrap_or(""); *x > 0 && !is_group_element(p) && l != "challenge" && l != "C" && l != "randomness" }).map(|(p, x)| (p, x)).collect();
+    let big: Vec<&Secret> = secrets.iter().filter(|s| s.value.significant_bits() > 64).collect();
+    for (i, (pa, sa)) in resp.iter().enumerate() {
+        for (pb, sb) in resp.iter().skip(i + 1) {
+            if component(pa) == component(pb) { continue; }
+            let ds = Integer::from(*sa - *sb);
+            if ds == 0 { continue; }
+            for (k, (ca_p, ca)) in chals.iter().enumerate() {
+                for (cb_p, cb) in chals.iter().skip(k + 1) {
+                    let dc = Integer::from(ca - cb);
+                    if dc == 0 || !ds.is_divisible(&dc) { continue; }
+                    cx.count("n.exact_difference_quotients");
+                    let q = Integer::from(&ds / &dc).abs();
+                    for x in &big { if q == x.value { cx.violation("C19", format!("{frame}/{}-{}/extracts/{}", generic_path(pa), generic_path(pb), x.kind), format!("({pa} - {pb}) / ({ca_p} - {cb_p}) is the sender's {} exactly: the two sub-proofs share a blinding term", x.kind)); } }
                 }
             }
         }
@@ -254,43 +338,55 @@ pub fn run(cx: &mut Cx, which: Which) {
                 let s: Vec<Secret> = secrets.into_iter().filter(|s| !s.kind.starts_with("opening-randomness-of:")).collect();
                 check_openings(cx, "ZKPoK", &v, &s, &pairs, &decoy2, &extra);
             }
-            Which::Masking => check_masking(cx, "ZKPoK", &v, &secrets, &extra),
+            Which::Masking => { check_masking(cx, "ZKPoK", &v, &secrets, &extra); check_shared_first_moves(cx, "ZKPoK", &v, &secrets, &extra); }
         }
     });
     // presentation
     let (k3, m3) = (key.clone(), msgs.clone());
     let (key4, msgs4) = (key.clone(), msgs.clone());
     let hidden_p: Vec<usize> = if cx.ch.chance("present_all_hidden", 1, 4) { reorder(&mut cx.ch, "hidden_list_order", &(0..n).collect::<Vec<_>>()).1 } else { hidden.clone() };
+    let hist: std::rc::Rc<std::cell::RefCell<History>> = Default::default();
+    // two more presentations of the same credential, each by a holder thread that has done nothing
+    // else before (a wallet restored on two devices): observed with the same history
+    let fresh = [cx.node("presenter-a"), cx.node("presenter-b")];
     cx.step(issuer, "sign", StepOpts::default(), move || issue_plain(&k3, &m3), move |cx, st| {
         let Ok(sig) = st.out else { return };
-        let (k5, m5, h5, sig5) = (key4.clone(), msgs4.clone(), hidden_p.clone(), sig.clone());
-        cx.step(holder, "proof_gen", StepOpts::default(), move || holder_present(&k5, &sig5, &m5, &h5), move |cx, st| {
-            let Ok(pj) = st.out else { cx.log("proof_gen failed (C15's business)".into()); return; };
-            let v = parse(&pj);
-            cx.eval(&[b"pok", pj.as_bytes()], true);
-            let mut secrets: Vec<Secret> = hidden_p.iter().map(|&i| Secret { kind: "hidden-attribute".into(), value: msgs4[i].clone() }).collect();
-            secrets.push(Secret { kind: "signature-e".into(), value: sig.0.clone() });
-            secrets.push(Secret { kind: "signature-v".into(), value: sig.2.clone() });
-            secrets.push(Secret { kind: "signature-s".into(), value: sig.1.clone() });
-            let w = int_of(&v["CL03"]["spok"]["Cv"]["randomness"]);
-            for (p, _val, rnd) in commitment_objects(&v) { secrets.push(Secret { kind: format!("opening-randomness-of:{}", generic_path(&p)), value: rnd }); }
-            let pairs = base_pairs(&key4, n, None);
-            let mut extra = Vec::new();
-            if let Some(arr) = v["CL03"]["proofs_commited_mi"].as_array() {
-                for (k, pv) in arr.iter().enumerate() {
-                    let Some(&i) = hidden_p.get(k) else { break };
-                    if let (Some(t), Some(cv)) = (int_of(&pv["value"]["t"]), int_of(&pv["commitment"]["value"])) { extra.push(("recomputed:proofs_commited_mi[*]".to_string(), nisp_secrets_challenge(&key4.cpk.g_bases[i], &key4.cpk.h, &cv, &t))); }
+        for (who, node) in [("holder", holder), ("presenter-a", fresh[0]), ("presenter-b", fresh[1])] {
+            let (k5, m5, h5, sig5) = (key4.clone(), msgs4.clone(), hidden_p.clone(), sig.clone());
+            let (key4, msgs4, hidden_p, sig, decoy, hist) = (key4.clone(), msgs4.clone(), hidden_p.clone(), sig.clone(), decoy.clone(), hist.clone());
+            cx.step(node, "proof_gen", StepOpts::default(), move || holder_present(&k5, &sig5, &m5, &h5), move |cx, st| {
+                let Ok(pj) = st.out else { cx.log("proof_gen failed (C15's business)".into()); return; };
+                let v = parse(&pj);
+                cx.eval(&[b"pok", who.as_bytes(), pj.as_bytes()], true);
+                cx.count("n.presentations_observed");
+                let mut secrets: Vec<Secret> = hidden_p.iter().map(|&i| Secret { kind: "hidden-attribute".into(), value: msgs4[i].clone() }).collect();
+                secrets.push(Secret { kind: "signature-e".into(), value: sig.0.clone() });
+                secrets.push(Secret { kind: "signature-v".into(), value: sig.2.clone() });
+                secrets.push(Secret { kind: "signature-s".into(), value: sig.1.clone() });
+                let w = int_of(&v["CL03"]["spok"]["Cv"]["randomness"]);
+                for (p, _val, rnd) in commitment_objects(&v) { secrets.push(Secret { kind: format!("opening-randomness-of:{}", generic_path(&p)), value: rnd }); }
+                let pairs = base_pairs(&key4, n, None);
+                let mut extra = Vec::new();
+                if let Some(arr) = v["CL03"]["proofs_commited_mi"].as_array() {
+                    for (k, pv) in arr.iter().enumerate() {
+                        let Some(&i) = hidden_p.get(k) else { break };
+                        if let (Some(t), Some(cv)) = (int_of(&pv["value"]["t"]), int_of(&pv["commitment"]["value"])) { extra.push(("recomputed:proofs_commited_mi[*]".to_string(), nisp_secrets_challenge(&key4.cpk.g_bases[i], &key4.cpk.h, &cv, &t))); }
+                    }
                 }
-            }
-            match which {
-                Which::Openings => {
-                    let mut s: Vec<Secret> = secrets.into_iter().filter(|s| !s.kind.starts_with("opening-randomness-of:")).collect();
-                    if let Some(w) = w { s.push(Secret { kind: "blinding-w-of-v".into(), value: w }); }
-                    check_openings(cx, "PoKSignature", &v, &s, &pairs, &decoy, &extra);
+                match which {
+                    Which::Openings => {
+                        let mut s: Vec<Secret> = secrets.into_iter().filter(|s| !s.kind.starts_with("opening-randomness-of:")).collect();
+                        if let Some(w) = w { s.push(Secret { kind: "blinding-w-of-v".into(), value: w }); }
+                        check_openings(cx, "PoKSignature", &v, &s, &pairs, &decoy, &extra);
+                        check_combinations(cx, "PoKSignature", who, &v, &key4.pk.N, &mut hist.borrow_mut());
+                    }
+                    Which::Masking => {
+                        check_masking_h(cx, "PoKSignature", who, &v, &secrets, &extra, &mut hist.borrow_mut());
+                        check_shared_first_moves(cx, "PoKSignature", &v, &secrets, &extra);
+                    }
                 }
-                Which::Masking => check_masking(cx, "PoKSignature", &v, &secrets, &extra),
-            }
-        });
+            });
+        }
     });
     // every eighth run: a wide credential (more than 64 attributes) with hidden attributes beyond
     // position 63, presented and observed the same way
